@@ -8,7 +8,7 @@ id=$1; shift
 W=$(mktemp -d /tmp/seedrun_XXXXXX); rmdir $W
 git -C /repo worktree add -q --detach $W HEAD || exit 2
 trap 'git -C /repo worktree remove --force '$W' >/dev/null 2>&1; rm -rf '$W'.out' EXIT
-git -C $W apply /verif/seeded/$id/patch.diff || { echo APPLY-FAIL; exit 2; }
+git -C $W apply /verif/seeded/$id/patch.diff 2>/dev/null || git -C $W apply --3way /verif/seeded/$id/patch.diff 2>/dev/null || { echo "== $id APPLY-FAIL exit=2"; exit 2; }
 cd /verif
 for p in "$@"; do
   out=$(GVC_OUT=$W.out bin/gvc check --prop $p --repo $W 2>&1); rc=$?
